@@ -297,7 +297,21 @@ def main():
         if cases:
             for j in (0, len(cases) // 2, len(cases) - 1):
                 samples.append({"suite": s.name, "line": cases[j].line[:300], "implementation": (ho[j] or "")[:300]})
-        per_suite[s.name + ":" + json.dumps(s.cfg, sort_keys=True)] = {"cases": len(cases), "disagreements": nd, "oracle_failures": nf}
+        # what the generated inputs actually exercised: operations sent, first word of the implementation's answers (result codes), sizes of the lines
+        ops_hist, ans_hist, size_hist = {}, {}, {}
+        for c_, h_ in zip(cases, ho):
+            o_ = c_.line.split(" ", 1)[0]
+            ops_hist[o_] = ops_hist.get(o_, 0) + 1
+            a_ = (h_ or "").split(" ")
+            a_ = a_[1] if (len(a_) > 1 and a_[0] == o_) else (a_[0] if a_ else "")      # history operations echo their name first
+            a_ = a_ if (a_[:1].isalpha() and len(a_) <= 20 and a_.isalnum()) else "(data)"
+            ans_hist[a_] = ans_hist.get(a_, 0) + 1
+            b_ = len(c_.line)
+            b_ = "<64" if b_ < 64 else "<256" if b_ < 256 else "<4096" if b_ < 4096 else ">=4096"
+            size_hist[b_] = size_hist.get(b_, 0) + 1
+        top = lambda d_: dict(sorted(d_.items(), key=lambda kv: -kv[1])[:14])
+        per_suite[s.name + ":" + json.dumps(s.cfg, sort_keys=True)] = {"cases": len(cases), "disagreements": nd, "oracle_failures": nf,
+                                                                         "operations": top(ops_hist), "answers": top(ans_hist), "line_sizes": size_hist}
     cov["source_drift"] = {"files": drifted[:40], "extra_rounds": DRIFT_ROUNDS if (drifted and tier == "quick") else 0,
                            "meaning": "files under /repo/src whose normalized text differs from the tree the models were last validated against (source_baseline.json); "
                                       "not a violation by itself - the quick tier then explores several further rounds of every suite"}
